@@ -80,6 +80,12 @@ static int arch_test(HIO_HANDLE *f, char *t, const int start)
 		uint32 id = hio_read32b(f);
 		uint32 len = hio_read32l(f);
 
+		/* End of data while reading a chunk header: same answer from
+		 * every I/O back-end (only stdio reports EOF after the read). */
+		if (hio_error(f)) {
+			break;
+		}
+
 		/* Sanity check */
 		if (len > 0x100000) {
 			return -1;
